@@ -52,6 +52,8 @@ func optionsCase(in map[string]any) map[string]any {
 		return interpCase(in)
 	case "golden":
 		return goldenCase(in)
+	case "describe":
+		return describeCase(in)
 	}
 	panic("bad mode")
 }
@@ -65,6 +67,7 @@ func errClass(err error) string {
 	s := err.Error()
 	type pat struct{ sub, class string }
 	pats := []pat{
+		{"panic handling", "panic"},
 		{"invalid option 'uninterpreted_option'", "uninterpreted-name"},
 		{"unrecognized extension", "no-ext"},
 		{"should extend", "wrong-extendee"},
@@ -527,4 +530,75 @@ func countLeaves(t any) int {
 		return len(l)
 	}
 	return 1
+}
+
+// ---------------------------------------------------------------- describe
+
+// describeCase returns the descriptors of chosen fields of the standard options messages
+// (descriptorpb), so that the plugin's schema of the standard options is read from the code under test
+// and not transcribed by hand.  in: {"want": {"google.protobuf.FileOptions": ["java_package", ...]}}
+func describeCase(in map[string]any) map[string]any {
+	want, _ := in["want"].(map[string]any)
+	msgs := map[string]any{}
+	enums := map[string]any{}
+	var addMsg func(md protoreflect.MessageDescriptor, only map[string]bool)
+	addEnum := func(ed protoreflect.EnumDescriptor) {
+		if _, ok := enums[string(ed.FullName())]; ok {
+			return
+		}
+		var vals []any
+		for i := 0; i < ed.Values().Len(); i++ {
+			v := ed.Values().Get(i)
+			vals = append(vals, []any{string(v.Name()), int64(v.Number())})
+		}
+		enums[string(ed.FullName())] = map[string]any{"values": vals, "closed": ed.IsClosed()}
+	}
+	addMsg = func(md protoreflect.MessageDescriptor, only map[string]bool) {
+		if _, ok := msgs[string(md.FullName())]; ok {
+			return
+		}
+		var flds []any
+		msgs[string(md.FullName())] = nil
+		for i := 0; i < md.Fields().Len(); i++ {
+			fd := md.Fields().Get(i)
+			if only != nil && !only[string(fd.Name())] {
+				continue
+			}
+			f := map[string]any{"name": string(fd.Name()), "number": int64(fd.Number()), "kind": fd.Kind().String(),
+				"repeated": fd.Cardinality() == protoreflect.Repeated, "map": fd.IsMap(), "implicit": !fd.HasPresence() && !fd.IsList() && !fd.IsMap(),
+				"oneof": -1}
+			if oo := fd.ContainingOneof(); oo != nil {
+				f["oneof"] = oo.Index()
+			}
+			var tg []any
+			if fo, ok := fd.Options().(*descriptorpb.FieldOptions); ok {
+				for _, t := range fo.GetTargets() {
+					tg = append(tg, int64(t))
+				}
+			}
+			f["targets"] = tg
+			if fd.Enum() != nil {
+				f["enum"] = string(fd.Enum().FullName())
+				addEnum(fd.Enum())
+			}
+			if fd.Message() != nil {
+				f["msg"] = string(fd.Message().FullName())
+				addMsg(fd.Message(), nil)
+			}
+			flds = append(flds, f)
+		}
+		msgs[string(md.FullName())] = flds
+	}
+	for name, l := range want {
+		d, err := protoregistry.GlobalFiles.FindDescriptorByName(protoreflect.FullName(name))
+		if err != nil {
+			return map[string]any{"error": err.Error()}
+		}
+		only := map[string]bool{}
+		for _, n := range l.([]any) {
+			only[n.(string)] = true
+		}
+		addMsg(d.(protoreflect.MessageDescriptor), only)
+	}
+	return map[string]any{"messages": msgs, "enums": enums}
 }
